@@ -12,7 +12,7 @@ theorem safe_doList {s : St} {j : Nat} (h : Safe s) (hj : j < s.nJob) (hpc : (s.
     Safe (doList s j) := by
   unfold doList
   apply safe_setJob h
-  · obtain ⟨h0, hn0, hn1, hn2, h1, h2, h3, h4, h5, h6, h7, h8, h9, h10, h11, h12, h13, h14⟩ := h.jobs j hj
+  · obtain ⟨h0, hn0, hn1, hn2, h1, h2, h3, h4, h5, h6, h7, h8, h9, h10, hrec, h11, h12, h13, h14⟩ := h.jobs j hj
     have hd := h.file_bound.2.2.2
     have hs := @mem_sortNat
     generalize s.job j = b at *
@@ -25,7 +25,7 @@ theorem safe_doPend {s : St} {j : Nat} (h : Safe s) (hj : j < s.nJob) (hpc : (s.
     Safe (doPend s j) := by
   unfold doPend
   apply safe_setJob h
-  · obtain ⟨h0, hn0, hn1, hn2, h1, h2, h3, h4, h5, h6, h7, h8, h9, h10, h11, h12, h13, h14⟩ := h.jobs j hj
+  · obtain ⟨h0, hn0, hn1, hn2, h1, h2, h3, h4, h5, h6, h7, h8, h9, h10, hrec, h11, h12, h13, h14⟩ := h.jobs j hj
     generalize s.job j = b at *
     obtain ⟨kind, pc, payload, snap, inputs, trivial, todoIn, out, edit, csnap, newVer, prev, prevZero, dlist, live, todoDel⟩ := b
     simp only at hpc; subst hpc
@@ -36,12 +36,12 @@ theorem safe_doActive {s : St} {j : Nat} (h : Safe s) (hj : j < s.nJob) (hpc : (
     Safe (doActive s j) := by
   unfold doActive
   apply safe_setJob h
-  · obtain ⟨h0, hn0, hn1, hn2, h1, h2, h3, h4, h5, h6, h7, h8, h9, h10, h11, h12, h13, h14⟩ := h.jobs j hj
+  · obtain ⟨h0, hn0, hn1, hn2, h1, h2, h3, h4, h5, h6, h7, h8, h9, h10, hrec, h11, h12, h13, h14⟩ := h.jobs j hj
     generalize s.job j = b at *
     obtain ⟨kind, pc, payload, snap, inputs, trivial, todoIn, out, edit, csnap, newVer, prev, prevZero, dlist, live, todoDel⟩ := b
     simp only at hpc; subst hpc
     constructor <;>
-      simp only [compactOnly, preAlloc, outPending, outOnDisk, inCommit, ownRange, csnapRange, editRange, delRange,
+      simp only [compactOnly, preAlloc, outPending, outOnDisk, inCommit, ownRange, csnapRange, editRange, delRange, postSwap,
         PastPending, Dead, DeadR, outNo, List.mem_append, List.mem_flatMap] at * <;> grind
   · left; rfl
 
@@ -50,12 +50,12 @@ theorem safe_doRollup {s : St} {j : Nat} (h : Safe s) (hj : j < s.nJob) (hpc : (
   unfold doRollup
   dsimp only
   apply safe_setJob h
-  · obtain ⟨h0, hn0, hn1, hn2, h1, h2, h3, h4, h5, h6, h7, h8, h9, h10, h11, h12, h13, h14⟩ := h.jobs j hj
+  · obtain ⟨h0, hn0, hn1, hn2, h1, h2, h3, h4, h5, h6, h7, h8, h9, h10, hrec, h11, h12, h13, h14⟩ := h.jobs j hj
     generalize s.job j = b at *
     obtain ⟨kind, pc, payload, snap, inputs, trivial, todoIn, out, edit, csnap, newVer, prev, prevZero, dlist, live, todoDel⟩ := b
     simp only at hpc; subst hpc
     constructor <;>
-      simp only [compactOnly, preAlloc, outPending, outOnDisk, inCommit, ownRange, csnapRange, editRange, delRange,
+      simp only [compactOnly, preAlloc, outPending, outOnDisk, inCommit, ownRange, csnapRange, editRange, delRange, postSwap,
         PastPending, Dead, DeadR, outNo, List.mem_filter, List.mem_append, List.contains_eq_mem, Bool.not_eq_true',
         decide_eq_false_iff_not] at * <;> grind
   · left; rfl
@@ -68,7 +68,7 @@ theorem safe_doEvict {s : St} {j : Nat} {f : Nat} {rest : List Nat} (h : Safe s)
   have hd : DeadR s f := hb0.deleting (by rcases hpc with hpc | hpc <;> rw [hpc] <;> rfl) f (by simp [htodo])
   have h1 : Safe (setPc s j .doEvicted) := by
     apply safe_setPc_plain h
-    obtain ⟨h0, hn0, hn1, hn2, h1, h2, h3, h4, h5, h6, h7, h8, h9, h10, h11, h12, h13, h14⟩ := hb0
+    obtain ⟨h0, hn0, hn1, hn2, h1, h2, h3, h4, h5, h6, h7, h8, h9, h10, hrec, h11, h12, h13, h14⟩ := hb0
     generalize s.job j = b at *
     obtain ⟨kind, pc, payload, snap, inputs, trivial, todoIn, out, edit, csnap, newVer, prev, prevZero, dlist, live, todoDel⟩ := b
     simp only at hpc
@@ -83,7 +83,7 @@ theorem safe_doRemove {s : St} {j : Nat} {f : Nat} {rest : List Nat} (h : Safe s
   have hd : DeadR s f := hb0.deleting (by rw [hpc]; rfl) f (by simp [htodo])
   have h1 : Safe (s.setJob j { s.job j with todoDel := rest, pc := .doRemoved }) := by
     apply safe_setJob h
-    · obtain ⟨h0, hn0, hn1, hn2, h1, h2, h3, h4, h5, h6, h7, h8, h9, h10, h11, h12, h13, h14⟩ := hb0
+    · obtain ⟨h0, hn0, hn1, hn2, h1, h2, h3, h4, h5, h6, h7, h8, h9, h10, hrec, h11, h12, h13, h14⟩ := hb0
       generalize s.job j = b at *
       obtain ⟨kind, pc, payload, snap, inputs, trivial, todoIn, out, edit, csnap, newVer, prev, prevZero, dlist, live, todoDel⟩ := b
       simp only at hpc htodo; subst hpc htodo
@@ -96,7 +96,7 @@ theorem safe_jFinish {s : St} {j : Nat} (h : Safe s) (hj : j < s.nJob)
   unfold jFinish
   apply safe_setCompacting
   apply safe_setPc_plain h
-  obtain ⟨h0, hn0, hn1, hn2, h1, h2, h3, h4, h5, h6, h7, h8, h9, h10, h11, h12, h13, h14⟩ := h.jobs j hj
+  obtain ⟨h0, hn0, hn1, hn2, h1, h2, h3, h4, h5, h6, h7, h8, h9, h10, hrec, h11, h12, h13, h14⟩ := h.jobs j hj
   generalize s.job j = b at *
   obtain ⟨kind, pc, payload, snap, inputs, trivial, todoIn, out, edit, csnap, newVer, prev, prevZero, dlist, live, todoDel⟩ := b
   simp only at hpc
@@ -105,7 +105,7 @@ theorem safe_jFinish {s : St} {j : Nat} (h : Safe s) (hj : j < s.nJob)
 theorem safe_startDelObs {s : St} {j : Nat} (h : Safe s) (hj : j < s.nJob) (hpc : (s.job j).pc = .start)
     (hk : (s.job j).kind = .delObs) : Safe (setPc s j .doStart) := by
   apply safe_setPc_plain h
-  obtain ⟨h0, hn0, hn1, hn2, h1, h2, h3, h4, h5, h6, h7, h8, h9, h10, h11, h12, h13, h14⟩ := h.jobs j hj
+  obtain ⟨h0, hn0, hn1, hn2, h1, h2, h3, h4, h5, h6, h7, h8, h9, h10, hrec, h11, h12, h13, h14⟩ := h.jobs j hj
   generalize s.job j = b at *
   obtain ⟨kind, pc, payload, snap, inputs, trivial, todoIn, out, edit, csnap, newVer, prev, prevZero, dlist, live, todoDel⟩ := b
   simp only at hpc hk; subst hpc hk
@@ -139,7 +139,7 @@ theorem safe_jstep {cfg : Cfg} {s s' : St} {j : Nat} (hr : cfg.recheck = true) (
   case h_5 hpc => cases hs; exact safe_jCreate h hj hpc
   case h_6 hpc =>
     split at hs
-    · cases hs; exact safe_readyEmpty h hj hpc
+    · cases hs; exact safe_readyEmpty h hj hpc (by assumption)
     · split at hs
       · cases hs; exact safe_jLock h hj hpc (by assumption)
       · cases hs
